@@ -567,6 +567,13 @@ def standard_proof_obligations(chk, prop_module, gen_names=(), extra_targets=())
         # a monolithic file; record them all as not checked
         for n in names:
             chk.oblige(f"theorem:{n}", False, "file does not compile")
+    if ok and chk.tier == "thorough":
+        # second opinion: the independent checker re-checks the compiled file and everything it
+        # depends on, and lists the axioms of the whole context
+        rc, out2 = sh(["coqchk", "-silent", "-o", "-Q", os.path.join(COQ, "theories"), "DV", "DV." + prop_module], cwd=COQ, timeout=3000)
+        good = rc == 0 and "* Axioms: <none>" in out2 and "type-in-type: <none>" in out2 and "unsafe (co)fixpoints: <none>" in out2 \
+            and "positivity is assumed: <none>" in out2
+        chk.oblige(f"coqchk:{prop_module}", good, "" if good else out2[-1500:])
     hits = coq_forbidden_scan()
     chk.oblige("no-admitted-axiom-scan", not hits, "; ".join(f"{f}:{l}: {t}" for f, l, t in hits[:5]))
     chk.checker_cmd = (f"cd coq && make -f Makefile.coq theories/{prop_module}.vo && "
